@@ -305,8 +305,14 @@ impl ProofGraph {
             if changed && !node.valid {
                 self.stats.invalidations += 1;
 
-                // Get dependents and propagate recursively
-                let further_deps = node.dependents.clone();
+                // Get dependents and propagate recursively. Use the reverse
+                // dependency index: `node.dependents` misses dependents that
+                // were inserted before this node existed.
+                let further_deps = self
+                    .dependencies
+                    .get(dependent_handle)
+                    .cloned()
+                    .unwrap_or_default();
                 for further_dep in further_deps {
                     self.propagate_invalidation(&further_dep, dependent_handle);
                 }
